@@ -25,7 +25,8 @@ RULE = ('finite product per configuration family: every scalar float input whose
         'every other line must be byte-identical. Hypothesis adds random in-range values (thorough). Non-trivial = unit differs from '
         'the default, conversion not the identity, and the parameter influences at least one output in that family (measured by a '
         'nudged run); distinct by (family, parameter, unit).')
-ASSUMPTIONS = ['a bare value is in the parameter\'s declared preferred unit (documented convention); year-based time units are not varied',
+ASSUMPTIONS = ['a bare value is in the parameter\'s declared preferred unit (documented convention); for float parameters year-based time units are not varied; '
+               'integer parameters counted in years are written as N + 1/4 years in day/week/hr/min/sec/msec, which truncates to N under any 365..366-day year',
                'currencies other than USD need a live exchange rate and are not varied']
 
 ECHO = {
@@ -97,6 +98,8 @@ def _rows(base):
     for r in meta.param_rows(m):
         if r['kind'] == 'floatParameter' and r['comp'] in ('reserv', 'wellbores', 'surfaceplant', 'economics') and units.alternatives(r['pu']):
             rows.append(r)
+        elif r['kind'] == 'intParameter' and r['comp'] in ('reserv', 'wellbores', 'surfaceplant', 'economics') and r['pu'] == 'yr':
+            rows.append(r)  # whole numbers of years (lifetime, escalation start years, credit duration) written in day / week / hr / ...
     seen, out = set(), []
     for r in rows:
         if r['name'] not in seen:
@@ -118,7 +121,55 @@ def _value_for(base, r):
     return float(d)
 
 
+YEAR_S = 365.25 * 86400.0  # the program converts with pint (Julian year); the quarter-year margin below makes the choice immaterial
+INT_ECHO = {'Plant Lifetime': ('ECONOMIC PARAMETERS', 'Project lifetime')}
+
+
+def eval_int_input(case, rec):
+    """integer parameter counted in years: N (bare) against (N + 1/4) yr written in another catalogue time unit; the reader
+    truncates to whole years, and a quarter year of margin keeps the pair equivalent under any 365..366-day year."""
+    fam, name, alt, v = case['family'], case['name'], case['unit'], int(case['value'])
+    base = families('thorough')[fam]
+    sig = dict(dim='time_int', unit=alt, name=name)
+    a = sim.run_params(gen.set_param(base, name, str(v)), want_report=True)
+    if not a.ok:
+        rec.case(case, nontrivial=False, labels=['bare_run_rejected'])
+        return
+    w = (v + 0.25) * YEAR_S / units.TABLE[alt][1]
+    sval = repr(float(w))
+    b = sim.run_params(gen.set_param(base, name, f'{sval} {alt}'), want_report=True)
+    other = v + 1 if case.get('max') is None or v + 1 <= case['max'] else v - 1
+    n = sim.run_params(gen.set_param(base, name, str(other)), want_report=False)
+    influential = n.ok and close_snap(a.snap, n.snap, rel=1e-12) is not None
+    rec.case(case, nontrivial=influential, labels=['dim:time_int', 'influential' if influential else 'not_influential'],
+             key=[fam, name, alt, v], sample={'family': fam, 'line': f'{name}, {sval} {alt}', 'equivalent_bare': f'{name}, {v}'})
+    if not b.ok:
+        if b.exc['type'] == 'RunTimeout':
+            rec.label('unit_run_hit_the_hang_guard')
+            return
+        rec.violation('raises', case, {'written_as': f'{sval} {alt}', 'error': b.exc}, error=str(b.exc['type']), **sig)
+        return
+    diff = close_snap(a.snap, b.snap)
+    if diff:
+        rec.violation('results', case, {'written_as': f'{sval} {alt}', 'equivalent_bare': f'{v} yr', **diff}, **sig)
+    if name in INT_ECHO:
+        sec, label = INT_ECHO[name]
+        es = Report(b.report).find(sec, label)
+        if es and es[0]['value'] is not None:
+            e = es[0]
+            if e['unit'] == 'yr':
+                years = e['value']
+            elif e['unit'] in units.TABLE and units.dim(e['unit']) == 'time':
+                years = units.to_base(e['value'], e['unit']) / YEAR_S
+            else:
+                years = None
+            if years is None or not (v - 0.01 <= years < v + 1):
+                rec.violation('echo', case, {'written_as': f'{sval} {alt}', 'echo_line': e['raw'].strip(), 'supplied_years': v}, **sig)
+
+
 def eval_input(case, rec):
+    if case.get('int'):
+        return eval_int_input(case, rec)
     fam, name, alt, v, pu = case['family'], case['name'], case['unit'], case['value'], case['from_unit']
     base = families('thorough')[fam]
     d = units.dim(pu)
@@ -183,6 +234,21 @@ def _input_shard(spec, rec):
     base = families('thorough')[spec['family']]
     rows = _rows(base)
     mine = rows[spec['part']::spec['parts']]
+    ints = [r for r in mine if r['kind'] == 'intParameter']
+    mine = [r for r in mine if r['kind'] != 'intParameter']
+    for r in ints:
+        given = dict(base).get(r['name'])
+        allow = [x for x in r['allowable'] if isinstance(x, int)]
+        # a value other than the declared default (the reader returns early on the default), inside the allowable range
+        v = int(float(given)) if given is not None else next((x for x in (3, 4, 7, 2) if x in allow and x != r['default']), None)
+        if v is None:
+            continue
+        for alt in [u for u, (d, _, _) in units.TABLE.items() if d == 'time']:
+            if rec.out_of_time():
+                return
+            eval_input({'kind': 'input', 'int': True, 'family': spec['family'], 'name': r['name'], 'unit': alt, 'value': v, 'from_unit': 'yr',
+                        'max': max(allow) if allow else None}, rec)
+    rec.count('integer_year_parameters_enumerated', len(ints))
     for r in mine:
         v = _value_for(base, r)
         if v is None:
